@@ -31,6 +31,9 @@ type Step struct {
 }
 
 func writeEvents(rec, scen *vh.Recorder, run *Run, sc Scenario) {
+	if run.Runaway != "" {
+		return // reported by the monitor; thousands of events at one instant are not worth a trace validation
+	}
 	scen.Emit(map[string]any{"callers": sc.Callers})
 	rec.Emit(map[string]any{"ev": "Reset"})
 	for _, e := range run.Events {
@@ -249,6 +252,9 @@ func TestReplay(t *testing.T) {
 		}
 		run := RunScenario(t, sc)
 		CheckRun(rep, run, sc)
+		if run.Runaway != "" {
+			continue
+		}
 		compareWithSpec(rep, beh, sc, run, i)
 		writeEvents(rec, scen, run, sc)
 		rep.Eval(runKey(run))
